@@ -767,6 +767,11 @@ func varyDoc(v interface{}, mode int) interface{} {
 		for k, e := range t {
 			out[k] = varyDoc(e, mode)
 		}
+		if mode == 5 {
+			// every object has one member more (what is left behind in something that is
+			// extended rather than rebuilt shows up as a member the next document never had)
+			out["zz9"] = "left-over"
+		}
 		return out
 	case float64:
 		// modes 3 and 4: the same shape with other values of the same type (what a cache keyed
